@@ -1031,12 +1031,22 @@ def merge(res):
         if lockmap is None:
             lockmap = {}
             for (a, b, kd, th, lk) in sites:
-                lockmap.setdefault((a, b, kd, th), set()).update(lk)
+                key = (a, b, kd, th)
+                # several call sites of the same callee in one function: only locks in scope at all of them
+                lockmap[key] = set(lk) if key not in lockmap else (lockmap[key] & set(lk))
+        # The pseudo-object behind a model interface is the model *owned* (unique_ptr) by the object whose member
+        # function makes the call: the row counts as an access through `this` of that function, so that mutex
+        # members of `this` in scope at the call site (and, through the entry locksets, in every caller on `this`)
+        # are credited — a command that calls into the model under the mutex the filtering thread also takes
+        # around its own calls obeys the discipline.  Hooks are called on `this` anyway.
+        owned = fld != "hook_state"
         for (k, t, kd, th, file, line, col) in hook_sites:
             if k not in bodies:
                 continue
-            nr = {"cls": "user", "field": fld, "acc": "w", "self": bool(th), "kindhint": "plain",
-                  "locks": sorted(lockmap.get((k, t, kd, th), ())) if th else [], "file": file or bodies[k]["file"], "line": line, "col": 0}
+            is_method = bool(k[0]) and k[0] in classes
+            slf = bool(th) or (owned and is_method)
+            nr = {"cls": "user", "field": fld, "acc": "w", "self": slf, "kindhint": "plain",
+                  "locks": sorted(lockmap.get((k, t, kd, th), ())) if slf else [], "file": file or bodies[k]["file"], "line": line, "col": 0}
             if nr not in bodies[k]["rows"]:
                 bodies[k]["rows"].append(nr)
     accesses, via_rows = [], []
